@@ -21,7 +21,7 @@ I64_MIN, I64_MAX = -2 ** 63, 2 ** 63 - 1
 
 HEADER = """import datetime, decimal, enum, ipaddress, uuid
 from dataclasses import dataclass, field
-from typing import (Annotated, Any, Dict, FrozenSet, List, Literal, Mapping, NamedTuple, Optional, Self, Sequence, Set,
+from typing import (Annotated, Any, Dict, Final, FrozenSet, List, Literal, Mapping, NamedTuple, Optional, Self, Sequence, Set,
                     Tuple, TypedDict, Union)
 from mashumaro import DataClassDictMixin
 from mashumaro.config import ADD_DIALECT_SUPPORT, BaseConfig
@@ -122,6 +122,13 @@ def ann(t: T) -> str:
     if k == "mapping":
         return f"Mapping[{ann(t.args[0])}, {ann(t.args[1])}]"
     if k == "opt":
+        sp = t.args[1] if len(t.args) > 1 else None      # the spelling of the same type
+        if sp == "annotated":
+            return f'Annotated[Optional[{ann(t.args[0])}], "meta"]'
+        if sp == "final":
+            return f"Final[Optional[{ann(t.args[0])}]]"
+        if sp == "union":
+            return f"Union[{ann(t.args[0])}, None]"
         return f"Optional[{ann(t.args[0])}]"
     if k == "union":
         return "Union[" + ", ".join(ann(x) for x in t.args[0]) + "]"
@@ -176,6 +183,20 @@ def kinds_deep(t: T, S, acc=None, seen=None) -> set:
 # ---------------------------------------------------------------------------
 # schema (module) generator
 # ---------------------------------------------------------------------------
+
+def respell(t: T, r, allow_final=False) -> T:
+    """the same Optional type under another annotation spelling"""
+    if t.kind != "opt" or len(t.args) > 1:
+        return t
+    x = r.random()
+    if x < 0.16:
+        return T("opt", t.args[0], "annotated")
+    if x < 0.22:
+        return T("opt", t.args[0], "union")
+    if allow_final and x < 0.36:
+        return T("opt", t.args[0], "final")
+    return t
+
 
 class Schema:
     """A generated module: enums, named tuples, typed dicts, dataclasses (source text) + descriptors."""
@@ -247,7 +268,7 @@ class Schema:
         fields = []
         nf = r.randint(2, 6) if root else r.randint(1, 4)
         for i in range(nf):
-            t = self.gen_type(depth - 1)
+            t = respell(self.gen_type(depth - 1), r, allow_final=True)
             fields.append([f"{prefix}{name.lower()}_{i}", t, None])
         if force_native:
             fields.append([f"{prefix}{name.lower()}_nat", T(r.choice(NATIVE_LEAVES)), None])
@@ -356,7 +377,7 @@ class Schema:
                 return T("dict", T("str"), self.gen_type(depth - 1))
             if c == "opt":
                 inner = self.gen_type(depth - 1)
-                return inner if inner.kind == "opt" else T("opt", inner)
+                return inner if inner.kind == "opt" else respell(T("opt", inner), r)
             if c == "child":
                 b = self.new_dc(depth - 1, force_self=r.random() < 0.4)
                 return self.new_dc(depth - 1, base=b.name)
@@ -385,7 +406,7 @@ class Schema:
                 inner = inner.args[0] if inner.kind == "opt" else T("int")
             if inner.kind == "union":
                 return inner if any(m.kind == "none" for m in inner.args[0]) else T("opt", T("int"))
-            return T("opt", inner)
+            return respell(T("opt", inner), r)
         if c == "tuplefix":
             return T(c, [self.gen_type(depth - 1, allow_classes) for _ in range(r.randint(1, 3))])
         if c == "union":
